@@ -1635,12 +1635,17 @@ fn run_client(c: &ClientCase, obs: &mut Obs) -> CheckResult {
     obs.label_if(c.downgrade.is_some(), "downgrade");
     obs.label_if(reset_first, "cache-reset-first");
 
+    let withdrawal_in_reset = (c.serial_mode.is_none() || reset_first) && c.items.iter().any(|(flags, _)| flags & 1 == 0);
+    obs.label_if(withdrawal_in_reset, "withdrawal-in-reset-reply");
     let check_intact = |run: &ClientRun, what: &str| -> CheckResult {
         judge_liveness(run, what)?;
         match &run.result {
             Ok(list) => {
                 ensure!(list == &expected, "{}: update holds {:?}, the stream carried {:?}", what, list, expected);
             }
+            // a reply to a reset query lists what the cache has: a withdrawal in it is the cache's
+            // protocol error (RFC 8210 section 5.6 / error code 6), the client may take it or refuse it
+            Err(_) if withdrawal_in_reset => return Ok(()),
             Err(e) => return Err(Fail::new(format!("{}: Client::update() failed on a well-formed reply stream: {}", what, e))),
         }
         ensure!(run.starts == vec![c.serial_mode.is_none() || reset_first], "{}: target.start calls {:?}", what, run.starts);
